@@ -71,3 +71,19 @@ void GOMP_critical_name_start(void** p) { pthread_mutex_lock(crit_for(p)); }
 void GOMP_critical_name_end(void** p) { pthread_mutex_unlock(crit_for(p)); }
 void GOMP_atomic_start(void) { pthread_mutex_lock(&g_crit_default); }
 void GOMP_atomic_end(void) { pthread_mutex_unlock(&g_crit_default); }
+
+/* the OpenMP lock API, should the library use it: pthread mutexes, which ThreadSanitizer understands. libgomp's omp_lock_t is a 4-byte
+ * opaque object, so the lock object holds an index into a table of mutexes. */
+#define SHIM_MAX_LOCKS 4096
+static pthread_mutex_t g_locks[SHIM_MAX_LOCKS]; static unsigned g_nlocks = 1; static pthread_mutex_t g_locks_mu = PTHREAD_MUTEX_INITIALIZER;
+static unsigned shim_new_lock(int recursive) { pthread_mutex_lock(&g_locks_mu); unsigned i = g_nlocks < SHIM_MAX_LOCKS ? g_nlocks++ : 0; pthread_mutex_unlock(&g_locks_mu); if (!i) abort();
+    pthread_mutexattr_t a; pthread_mutexattr_init(&a); if (recursive) pthread_mutexattr_settype(&a, PTHREAD_MUTEX_RECURSIVE); pthread_mutex_init(&g_locks[i], &a); pthread_mutexattr_destroy(&a); return i; }
+void omp_init_lock(uint32_t* l) { *l = shim_new_lock(0); }
+void omp_destroy_lock(uint32_t* l) { (void)l; }
+void omp_set_lock(uint32_t* l) { pthread_mutex_lock(&g_locks[*l % SHIM_MAX_LOCKS]); }
+void omp_unset_lock(uint32_t* l) { pthread_mutex_unlock(&g_locks[*l % SHIM_MAX_LOCKS]); }
+int omp_test_lock(uint32_t* l) { return pthread_mutex_trylock(&g_locks[*l % SHIM_MAX_LOCKS]) == 0; }
+void omp_init_nest_lock(uint32_t* l) { *l = shim_new_lock(1); }
+void omp_destroy_nest_lock(uint32_t* l) { (void)l; }
+void omp_set_nest_lock(uint32_t* l) { omp_set_lock(l); }
+void omp_unset_nest_lock(uint32_t* l) { omp_unset_lock(l); }
